@@ -6,6 +6,7 @@ import (
 	"math"
 	"math/rand"
 	"sort"
+	"time"
 
 	"github.com/aclements/go-moremath/stats"
 
@@ -156,6 +157,13 @@ func c05Judge(w *mon.W, c c05Case) {
 				if !w.Err("norm-InvCDF-roundtrip", diff, tol) {
 					w.Violate("inv-roundtrip", fmt.Sprintf("NormalDist{%g,%g}: InvCDF(%g)=%.17g, but CDF_ref there is %.17g (rel err %.3g)", mu, sigma, p, x, ref.F64(back), diff/p), one(p))
 				}
+				// the statement's round trip is through the library's own CDF
+				var lib float64
+				w.Eval("NormalDist.CDF(InvCDF(p))")
+				mon.Call(func() { lib = n.CDF(x) })
+				if !w.Err("norm-CDF(InvCDF)-roundtrip", math.Abs(lib-p), tol) {
+					w.Violate("inv-roundtrip-lib", fmt.Sprintf("NormalDist{%g,%g}: CDF(InvCDF(%g))=%.17g (rel err %.3g)", mu, sigma, p, lib, math.Abs(lib-p)/p), one(p))
+				}
 			}
 		}
 		// monotone in p
@@ -240,14 +248,70 @@ func c05Judge(w *mon.W, c c05Case) {
 		if !w.Err("rand-KS", ks, eps) {
 			w.Violate("rand-KS", fmt.Sprintf("NormalDist{%g,%g}.Rand: KS distance %g over %d draws exceeds the DKW bound %g (alpha=1e-9)", mu, sigma, ks, N, eps), c)
 		}
-		// nil source must work as well
-		if p, e := mon.Call(func() {
-			x := n.Rand(nil)
+		// tail counts: a sampler that never leaves a few sigma moves too little
+		// mass for the KS band. Binomial(N, p) counts beyond 2 and 3 sigma
+		// stay within 7.5 standard deviations (false-alarm rate < 1e-12).
+		for _, tz := range []struct{ z, p float64 }{{2, 0.04550026389635842}, {3, 0.0026997960632601866}} {
+			cnt := 0
+			for _, x := range a {
+				if math.Abs(x-mu) > tz.z*sigma {
+					cnt++
+				}
+			}
+			m, sd := float64(N)*tz.p, math.Sqrt(float64(N)*tz.p*(1-tz.p))
+			if !w.Err(fmt.Sprintf("rand-tail-%g-sigma", tz.z), math.Abs(float64(cnt)-m), 7.5*sd+1) {
+				w.Violate("rand-tails", fmt.Sprintf("NormalDist{%g,%g}.Rand: %d of %d draws lie beyond %g sigma, expected %.0f +- %.0f", mu, sigma, cnt, N, tz.z, m, sd), c)
+			}
+		}
+		for _, x := range a {
 			if math.IsNaN(x) || math.IsInf(x, 0) {
-				panic("non-finite draw")
+				w.Violate("rand-finite", fmt.Sprintf("NormalDist{%g,%g}.Rand returned %g from a seeded source", mu, sigma, x), c)
+				break
+			}
+		}
+		// hostile sources: every variate they can produce is a legal output of
+		// a rand.Source, so the draw must be finite (an event of probability
+		// zero such as -Inf must never come out)
+		for name, src := range map[string]rand.Source{"zero-first": &zeroFirst{src: rand.NewSource(int64(c.Seed))}, "all-zero": constSource(0), "all-ones": constSource(1<<63 - 1)} {
+			var x float64
+			w.Eval("NormalDist.Rand(hostile source)")
+			done := make(chan bool, 1)
+			go func() {
+				defer func() { recover(); done <- true }()
+				x = n.Rand(rand.New(src))
+			}()
+			select {
+			case <-done:
+				if math.IsNaN(x) || math.IsInf(x, 0) {
+					w.Violate("rand-hostile-source", fmt.Sprintf("NormalDist{%g,%g}.Rand returned %g with the %s source", mu, sigma, x, name), c)
+				}
+			case <-time.After(20 * time.Second):
+				// a rejection loop that never accepts a constant source is
+				// legitimate (the ziggurat of math/rand terminates on these)
+				w.Note("rand-hostile-source-no-return:" + name)
+			}
+		}
+		// nil source: the global generator; the draws must still be N(mu, sigma)
+		nN := 4000
+		b2 := make([]float64, nN)
+		if p, e := mon.Call(func() {
+			for i := range b2 {
+				b2[i] = n.Rand(nil)
 			}
 		}); p {
 			w.Violate("rand-nil", fmt.Sprintf("NormalDist{%g,%g}.Rand(nil): %v", mu, sigma, e), c)
+		} else {
+			w.EvalN("NormalDist.Rand(nil)", int64(nN))
+			sort.Float64s(b2)
+			ks2 := 0.0
+			for i, x := range b2 {
+				f := 0.5 * math.Erfc(-(x-mu)/(sigma*math.Sqrt2))
+				ks2 = math.Max(ks2, math.Max(math.Abs(f-float64(i)/float64(nN)), math.Abs(float64(i+1)/float64(nN)-f)))
+			}
+			eps2 := math.Sqrt(math.Log(2/1e-9) / (2 * float64(nN)))
+			if !w.Err("rand-nil-KS", ks2, eps2) || math.IsNaN(ks2) {
+				w.Violate("rand-nil-KS", fmt.Sprintf("NormalDist{%g,%g}.Rand(nil): KS distance %g over %d draws exceeds the DKW bound %g", mu, sigma, ks2, nN, eps2), c)
+			}
 		}
 	case "delta":
 		T := mu
@@ -497,3 +561,9 @@ func c05Run(r *mon.Run) {
 		c05Judge(w, c05Case{Op: "delta", Mu: mon.F(T), Xs: mon.Fs(xs)})
 	})
 }
+
+// constSource is a rand.Source that always returns the same value.
+type constSource int64
+
+func (c constSource) Int63() int64 { return int64(c) }
+func (c constSource) Seed(int64)   {}
